@@ -29,6 +29,10 @@ pub mod mpsc {
         pub uninterp spec fn chan(&self) -> int;
         pub uninterp spec fn is_open(&self) -> bool;
     }
+    #[verifier::external_body]
+    pub fn unbounded_channel<T>() -> (r: (UnboundedSender<T>, UnboundedReceiver<T>))
+        ensures r.0.chan() == r.1.chan()
+    { unimplemented!() }
     impl<T> Clone for UnboundedSender<T> {
         #[verifier::external_body]
         fn clone(&self) -> (r: Self) ensures r.chan() == self.chan(), r.is_open() == self.is_open() { unimplemented!() }
